@@ -468,3 +468,20 @@ contract('Environment._trace_event', props=['C15'], args={'event': 'ref:Event!'}
                       '            k in self._event_trace and self._event_trace[k] == old(self._event_trace[k])) '
                       '    for k in refs())'},
          modifies=['self._event_index', 'self._event_trace[]'])
+
+# --------------------------------------------------------------------------- the environment as seen by assets
+# Calls into the environment from other classes are recorded in the caller's ghost trace (kind =
+# fn_id(method), receiver, arguments) and have no effect on the caller's own state; what the call does to
+# the environment is the verified contract of the method above.
+extern('Environment.add_datapoint', pure=True, always=True, params=['list_label', 'sub_label', 'datapoint'],
+       note='appends exactly one record to simulation_data[label][sub_label] (C15 Environment.add_datapoint)')
+extern('Environment.schedule_event', pure=True, always=True,
+       params=['time', 'asset_id', 'action', 'event_type', 'message'],
+       requires={'not_in_the_past': 'time >= self._now', 'callable': 'action is not None'},
+       note='inserts one fresh live event (C01 Environment.schedule_event); never raises given the call-site obligations')
+extern('Environment.pause_matching_events', pure=True, always=True, params=['asset_id'],
+       note='C07 Environment.pause_matching_events')
+extern('Environment.unpause_matching_events', pure=True, always=True, params=['asset_id'],
+       note='C07 Environment.unpause_matching_events')
+extern('Environment.cancel_matching_events', pure=True, always=True, params=['asset_id'],
+       note='C07 Environment.cancel_matching_events')
